@@ -11,8 +11,11 @@ Open Scope string_scope.
 (* what the generated statements of ONE field see at run time *)
 Record renv := {
   rv_by_alias : bool;          (* the keyword parameter by_alias *)
+  rv_omit_none : bool;         (* the keyword parameter omit_none *)
   rv_ne_default : bool;        (* value != <default literal> *)
   rv_not_nan : bool;           (* not (isinstance(value, float) and isnan(value)) *)
+  rv_raw : pv;                 (* self.<field> = value *)
+  rv_is_none : bool;           (* value is None *)
   rv_packed : pv;              (* value of the packer expression *)
 }.
 
@@ -23,19 +26,41 @@ Definition str_is (v: kv) (s: string) : bool := match v with KStr t => String.eq
 Definition piece_is (v: kv) (tag: string) (x: kv) : bool :=
   match v with KTuple [KStr t; y] => String.eqb t tag && kv_eqb y x | _ => false end.
 
-(* kwargs[{k!r}] = {packed}   |   kwargs['{k}'] = {packed}      (k a str: the key is k) *)
-Definition set_key (ps: kv) : option string :=
-  match ps with
-  | KList [a; KTuple [KStr t; KStr k]; b; c] =>
-      if (str_is a "kwargs[" && String.eqb t "repr" && str_is b "] = " && piece_is c "fmt" packed_tok)
-         || (str_is a "kwargs['" && String.eqb t "fmt" && str_is b "'] = " && piece_is c "fmt" packed_tok)
-      then Some k else None
+(* the expression stored: the packer expression | value | self.<f> | None *)
+Definition stored (c: kv) (e: renv) : option pv :=
+  match c with
+  | KTuple [KStr t; x] =>
+      if String.eqb t "fmt" then
+        if kv_eqb x packed_tok then Some e.(rv_packed)
+        else match x with
+             | KTuple [KStr f; KList [a]] =>
+                 if String.eqb f "fstr" then
+                   if str_is a "value" then Some e.(rv_raw) else if str_is a "None" then Some PNone else None
+                 else None
+             | KTuple [KStr f; KList [a; KTuple [KStr g; KStr _]]] =>
+                 if String.eqb f "fstr" && str_is a "self." && String.eqb g "fmt" then Some e.(rv_raw) else None
+             | _ => None end
+      else None
   | _ => None end.
 
-Inductive header := HIfByAlias | HElse | HIfNeDefault | HIfNotNan.
+(* kwargs[{k!r}] = {expr}   |   kwargs['{k}'] = {expr}      (k a str: the key is k) *)
+Definition set_key (ps: kv) (e: renv) : option (string * pv) :=
+  match ps with
+  | KList [a; KTuple [KStr t; KStr k]; b; c] =>
+      if (str_is a "kwargs[" && String.eqb t "repr" && str_is b "] = ")
+         || (str_is a "kwargs['" && String.eqb t "fmt" && str_is b "'] = ")
+      then match stored c e with Some v => Some (k, v) | None => None end else None
+  | _ => None end.
+(* value = self.{f} *)
+Definition is_bind_value (ps: kv) : bool :=
+  match ps with KList [a; KTuple [KStr t; KStr _]] => str_is a "value = self." && String.eqb t "fmt" | _ => false end.
+
+Inductive header := HIfByAlias | HElse | HIfNeDefault | HIfNotNan | HIfNotNone | HIfNotOmitNone.
 Definition header_of (ps: kv) : option header :=
   match ps with
-  | KList [a] => if str_is a "if by_alias:" then Some HIfByAlias else if str_is a "else:" then Some HElse else None
+  | KList [a] => if str_is a "if by_alias:" then Some HIfByAlias else if str_is a "else:" then Some HElse
+                 else if str_is a "if value is not None:" then Some HIfNotNone
+                 else if str_is a "if not omit_none:" then Some HIfNotOmitNone else None
   | KList [a; KTuple [KStr t; KTuple [KStr f; KList cond]]; b] =>
       if str_is a "if " && String.eqb t "fmt" && String.eqb f "fstr" && str_is b ":" then
         match cond with
@@ -43,6 +68,14 @@ Definition header_of (ps: kv) : option header :=
         | [x; y] => if str_is x "value != " && piece_is y "fmt" literal_tok then Some HIfNeDefault else None
         | _ => None end
       else None
+  | _ => None end.
+Definition cond_of (h: header) (e: renv) : bool :=
+  match h with
+  | HIfByAlias => e.(rv_by_alias) | HIfNeDefault => e.(rv_ne_default) | HIfNotNan => e.(rv_not_nan)
+  | HIfNotNone => negb e.(rv_is_none) | HIfNotOmitNone => negb e.(rv_omit_none) | HElse => false end.
+Definition else_block (x: kv) : option (list kv) :=
+  match x with
+  | KTuple [t; h; KList body] => if str_is t "block" then match header_of h with Some HElse => Some body | _ => None end else None
   | _ => None end.
 
 (* sequential execution of emitted lines; None: a shape this reading does not know *)
@@ -54,59 +87,72 @@ Fixpoint run_lines (fuel: nat) (l: list kv) (e: renv) : option (list (string * p
     | [] => Some []
     | KTuple [t; ps] :: rest =>
         if str_is t "line" then
-          match set_key ps, run_lines n rest e with
-          | Some k, Some r => Some ((k, e.(rv_packed)) :: r)
-          | _, _ => None end
+          if is_bind_value ps then run_lines n rest e
+          else match set_key ps e, run_lines n rest e with
+               | Some kv', Some r => Some (kv' :: r)
+               | _, _ => None end
         else None
     | KTuple [t; h; KList body] :: rest =>
         if str_is t "block" then
           match header_of h with
-          | Some HIfByAlias =>
-              match rest with
-              | KTuple [t2; h2; KList body2] :: rest2 =>
-                  match str_is t2 "block", header_of h2 with
-                  | true, Some HElse =>
-                      match run_lines n (if e.(rv_by_alias) then body else body2) e, run_lines n rest2 e with
-                      | Some a, Some r => Some (a ++ r)%list
-                      | _, _ => None end
+          | None | Some HElse => None
+          | Some hd =>
+              match match rest with x :: rest2 => match else_block x with Some b2 => Some (b2, rest2) | None => None end | [] => None end with
+              | Some (body2, rest2) =>
+                  (* both branches are read (never run_lines on an undecided list) *)
+                  match run_lines n body e, run_lines n body2 e, run_lines n rest2 e with
+                  | Some a, Some b, Some r => Some ((if cond_of hd e then a else b) ++ r)%list
+                  | _, _, _ => None end
+              | None =>
+                  match run_lines n body e, run_lines n rest e with
+                  | Some a, Some r => Some ((if cond_of hd e then a else []) ++ r)%list
                   | _, _ => None end
-              | _ => None end
-          | Some HIfNeDefault =>
-              match run_lines n body e, run_lines n rest e with
-              | Some a, Some r => Some ((if e.(rv_ne_default) then a else []) ++ r)%list
-              | _, _ => None end
-          | Some HIfNotNan =>
-              match run_lines n body e, run_lines n rest e with
-              | Some a, Some r => Some ((if e.(rv_not_nan) then a else []) ++ r)%list
-              | _, _ => None end
-          | _ => None end
+              end
+          end
         else None
     | _ => None end
   end.
 
 (* arguments of the emitters for a field plan in a static context *)
-Definition enc_defval (p: fplan) : kv := match default_value p with None => KMissing | Some _ => KObj 7 end.
-Definition enc_isnan (p: fplan) : kv := KBool (match default_value p with Some PNaN => true | _ => false end).
+Definition enc_defval (p: fplan) : kv :=
+  match default_value p with None => KMissing | Some d => if is_none d then KNone else KObj 7 end.
+Definition enc_isnan (p: fplan) : kv := KBool (match default_value p with Some d => is_nan d | None => false end).
 Definition enc_alias (p: fplan) : kv := match p.(p_alias) with Some a => KStr a | None => KNone end.
 Definition env_of (c: sctx) (p: fplan) (raw v: pv) : renv :=
   {| rv_by_alias := c.(r_ba);
+     rv_omit_none := c.(r_on);
      rv_ne_default := match default_value p with Some d => negb (py_eq raw d) | None => true end;
      rv_not_nan := negb (is_nan raw);
+     rv_raw := raw;
+     rv_is_none := is_none raw;
      rv_packed := v |}.
 Definition emitted (c: sctx) (p: fplan) : res (list kv) :=
   set_value (enc_defval p) literal_tok (enc_isnan p) (KBool c.(s_ba))
             (KStr p.(p_name)) (enc_alias p) (KBool c.(s_fba)) packed_tok (KBool c.(s_od)).
+
+Lemma guard_alt od p raw :
+  guard od p raw = if od then match default_value p with
+                              | None => true
+                              | Some d => if is_nan d then negb (is_nan raw) else negb (py_eq raw d) end
+                   else true.
+Proof. unfold guard. destruct od; auto. destruct (default_value p) as [[]|]; reflexivity. Qed.
+Lemma dn_alt p : default_is_none p = match default_value p with Some d => is_none d | None => false end.
+Proof. unfold default_is_none. destruct (default_value p) as [[]|]; reflexivity. Qed.
+
+Ltac split_ifs := repeat match goal with |- context [if ?b then _ else _] => destruct b end.
 
 Theorem K108a_set_value_lemma : forall (c: sctx) (p: fplan) (raw v: pv),
   exists l, emitted c p = Ok l /\
             run_lines 4 l (env_of c p raw v) = guarded (guard c.(s_od) p raw) [(key_kw c p, v)].
 Proof.
   intros [son sod sba sfon sfba ron rba] [nm al ty tr df om] raw v.
-  unfold emitted, env_of, guard, key_kw, guarded, enc_defval, enc_isnan, enc_alias, default_value.
-  cbn [s_od s_ba s_fba r_ba p_name p_alias p_default].
-  destruct sod, sba, sfba, rba, al as [a|], df as [|d|d]; try destruct d;
-    (eexists; split; [reflexivity|]); cbn;
-    repeat match goal with |- context [if ?b then _ else _] => destruct b end; reflexivity.
+  rewrite guard_alt.
+  unfold emitted, env_of, key_kw, guarded, enc_defval, enc_isnan, enc_alias, default_value.
+  cbn [s_od s_ba s_fba r_ba r_on p_name p_alias p_default].
+  destruct df as [|d|d]; [| generalize (is_none d) (is_nan d) (py_eq raw d); intros dn dnan rne ..];
+    generalize (is_nan raw); intros rnan;
+    destruct sod, sba, sfba, al as [a|]; try destruct dn; try destruct dnan;
+    (eexists; split; [reflexivity|]); vm_compute; split_ifs; reflexivity.
 Qed.
 
 (* the model's per-key emission for a field that is not nullable IS the meaning of the emitted code *)
@@ -118,6 +164,13 @@ Proof.
   destruct (K108a_set_value_lemma c p raw (pval p (raw, pk))) as [l [H1 H2]].
   exists l. split; [exact H1|]. rewrite H2. unfold emit_kw. cbn [fst snd]. rewrite Hn. reflexivity.
 Qed.
+
+(* ---- the per-field body of the `kwargs = {}` loop: every field, nullable or not ---- *)
+Definition field_emitted (c: sctx) (p: fplan) (force_value: bool) : res (list kv) :=
+  pack_field_lines (enc_defval p) literal_tok (enc_isnan p) (KBool c.(s_ba)) (enc_alias p)
+                   (KBool (nullable p)) (KBool p.(p_trivial))
+                   (KBool force_value) (KBool c.(s_od)) (KBool c.(s_on)) (KBool c.(s_fon)) (KBool c.(s_fba))
+                   (KStr p.(p_name)) packed_tok.
 
 (* ------------------------------------------------------------------ *)
 (* the TEXT of the emitted lines (CodeLines: `with indent(h)` appends h and indents the body by four blanks), for the
